@@ -583,8 +583,22 @@ def gen_cases(ctx, cs):
         cs.op(j, ["fpath", "x", outlet, cells], "malformed/fpath")
         cs.op(j, ["fpath", "x", rng.choice(bad), mix + [outlet]], "malformed/fpath_outlet")
         if it < ctx.scale(12, 40):
-            cs.op(j, ["area", "py", outlet, None, None, True], "default_nval")
-            cs.op(j, ["river", "py", rng.randrange(n), None, 0.0, 0.0, 1.0], "default_nval")
+            # the default buffer size (10^6) only on grids where nothing cycles (a cycle would fill the buffer:
+            # the real code copes, but 10^6-row replies are not worth the time)
+            fd2 = list(fd)
+            fd2[outlet] = 0
+            g2 = G(nr, nc, fd2)
+            j2 = cs.grid(nr, nc, fd2)
+            cs.op(j2, ["area", "py", outlet, None, None, True], "default_nval")
+            ends = []
+            for c0 in range(n):
+                c, k = c0, 0
+                while c >= 0 and k <= n:
+                    c, k = g2.down(c), k + 1
+                if c < 0:
+                    ends.append(c0)
+            if ends:
+                cs.op(j2, ["river", "py", rng.choice(ends), None, 0.0, 0.0, 1.0], "default_nval")
 
 
 # =============================================================================================
